@@ -195,6 +195,12 @@ pub fn run(ctx: &Ctx, rep: &mut Report) {
         popts.n_users = if miri { rng.below(2) } else { *rng.pick(&[0usize, 0, 1, 2, 3]) };
         let world = match guard(|| build_world_from(&mut rng, &dopts, matrix, sys, popts, Place::Owned)) {
             Ok(Ok(w)) => w,
+            Ok(Err(e)) if e.starts_with("load failed") || e.starts_with("plain load failed") => {
+                // the compiler accepted the inputs, so loading what it wrote must succeed
+                rep.eval();
+                rep.violation("compiled_dictionary_does_not_load", "from_cfg_storage", &clip(&e, 300), "", json!({"world_index": wi}));
+                continue;
+            }
             Ok(Err(e)) => {
                 rep.count("worlds_rejected", 1);
                 rep.notes.push(format!("world {}: {}", wi, clip(&e, 300)));
@@ -429,7 +435,7 @@ fn cli_build(world: &World, rng: &mut Rng) -> Result<Option<(usize, Vec<u8>)>, S
     }
     let out = dir.path.join("out.dic");
     let mut cmd = std::process::Command::new(&cli);
-    cmd.arg("build").arg("-m").arg(dir.path.join("matrix.def")).arg("-o").arg(&out).arg("-d").arg("vh");
+    cmd.arg("build").arg("-m").arg(dir.path.join("matrix.def")).arg("-o").arg(&out).arg("-d").arg(env::DESCRIPTION);
     for f in &files {
         cmd.arg(f);
     }
